@@ -320,6 +320,10 @@ func (u *Unit) execStmt1(st *State, s ast.Stmt, label string) []*Out {
 			r = u.binop(st, token.SUB, v, one, lv.T, x.Pos())
 		}
 		u.store(st, lv, r)
+		if len(u.frames) == 1 {
+			// anchor "afterstmt:x++" / "afterstmt:x--"
+			u.runAnchorsNamed(st, "afterstmt:"+exprText(x.X)+x.Tok.String(), x.Pos(), nil)
+		}
 		return normal(st)
 	case *ast.ReturnStmt:
 		fr := u.top()
@@ -644,6 +648,10 @@ func (u *Unit) modified(nodes ...ast.Node) *modSet {
 			xt := info.TypeOf(x.X)
 			if xt != nil && isPointer(xt) {
 				k := "F:" + typeKey(xt.Underlying().(*types.Pointer).Elem()) + ":"
+				if sel := info.Selections[x]; sel != nil && sel.Kind() == types.FieldVal && len(sel.Index()) == 1 {
+					// a direct field: only the leaves of that field are written
+					k += x.Sel.Name
+				}
 				if isLocal(x.X) {
 					m.allocKeys = append(m.allocKeys, k)
 				} else {
@@ -695,6 +703,11 @@ func (u *Unit) modified(nodes ...ast.Node) *modSet {
 		}
 		ast.Inspect(n, func(n ast.Node) bool {
 			switch x := n.(type) {
+			case *ast.ReturnStmt:
+				if u.loopRegion {
+					// what a return statement's operands do never reaches the loop head again
+					return false
+				}
 			case *ast.AssignStmt:
 				for _, l := range x.Lhs {
 					lhs(l)
@@ -888,6 +901,8 @@ func (u *Unit) loopInvariants(st *State, ls *LoopSpec, ord int, phase string, po
 			st.assume(t)
 		} else {
 			u.oblige(st, fmt.Sprintf("loop%d/%s#%d", ord, phase, i+1), "invariant", c.Props, t, pos, c.Text)
+			// cut: the following invariants may use this one (it has its own obligation)
+			st.assume(t)
 		}
 	}
 }
@@ -914,7 +929,9 @@ func (u *Unit) execFor(st *State, x *ast.ForStmt, label string) []*Out {
 	u.loopInvariants(st, ls, ord, "init", pos, nil, false)
 	u.loopFrame(st, ord, "init", pos)
 	h := st.clone()
+	u.loopRegion = true
 	mods := u.modified(x.Body, x.Post, x.Cond)
+	u.loopRegion = false
 	u.applyLoopModifies(h, ls, mods)
 	u.havocLoop(h, mods)
 	u.loopInvariants(h, ls, ord, "", pos, nil, true)
@@ -1065,7 +1082,9 @@ func (u *Unit) execRange(st *State, x *ast.RangeStmt, label string) []*Out {
 		u.loopInvariants(st, ls, ord, "init", pos, extra, false)
 		u.loopFrame(st, ord, "init", pos)
 		h := st.clone()
+		u.loopRegion = true
 		mods := u.modified(x.Body)
+		u.loopRegion = false
 		if keyObj != nil {
 			mods.vars[keyObj] = true
 		}
@@ -1160,7 +1179,9 @@ func (u *Unit) execRangeOpaque(st *State, x *ast.RangeStmt, label string, ls *Lo
 	u.loopInvariants(st, ls, ord, "init", pos, nil, false)
 	u.loopFrame(st, ord, "init", pos)
 	h := st.clone()
+	u.loopRegion = true
 	mods := u.modified(x.Body)
+	u.loopRegion = false
 	bind := func(e ast.Expr) types.Object {
 		if e == nil {
 			return nil
